@@ -250,7 +250,10 @@ class UnsignedLongConverter(IntegerConverter):
 class BooleanConverter(NullConverter):
     @staticmethod
     def to_py(xml_value: str) -> bool:
-        return xml_value in ('true', '1')
+        if xml_value is None:
+            return False
+        # leading / trailing whitespace is not significant in xsd:boolean (whiteSpace = collapse)
+        return xml_value.strip(_XML_WHITESPACE) in ('true', '1')
 
     @staticmethod
     def to_xml(py_value: bool) -> str:
